@@ -74,11 +74,12 @@ def rich_doc(rng, words):
                 continue
             used.add(tuple(path))
             vals = []
-            for _ in range(rng.choice([1, 1, 2])):
+            nobj = rng.choice([1, 1, 2, 3])          # the document holds nobj values of the JSON field
+            for vi in range(rng.choice([1, 1, 2, 3])):
                 k = rng.random()
                 if k < 0.6:
                     ws = [rng.choice(["hello", "big", "world", "x1", "zz"]) for _ in range(rng.choice([1, 2, 3]))]
-                    vals.append({"s": ws})
+                    vals.append({"s": ws, "obj": min(vi, nobj - 1)})
                 elif k < 0.85:
                     vals.append({"i": str(rng.choice([0, -7, 5, 2 ** 40, -2 ** 63, rng.randrange(10)]))})
                 else:
@@ -166,6 +167,24 @@ def many_case(i, m, rng):
     return {"id": i, "kind": "many", "many": {k: m[k] for k in ("nfields", "pairs", "pattern")}, "segs": [docs], "deletes": [], "merge": False, "seeks": []}
 
 
+def jsonvals_case(i, j, rng):
+    """documents holding several values of the JSON field that share a text path (TLC-generated shape)"""
+    docs = []
+    for variant in range(3):
+        words = ["hello", "big", "world"] if j["repeated"] else None
+        vals, n = [], 0
+        for v in range(j["values"]):
+            for _ in range(2 if j["array"] and v == 0 else 1):
+                ws = [words[(n + x) % 3] if words else f"t{variant}x{n + x}" for x in range(j["words"])]
+                n += j["words"]
+                vals.append({"s": ws, "obj": v})
+        streams = [{"path": ["t"], "vals": vals}]
+        if variant:
+            streams.append({"path": ["o", "n"], "vals": [{"s": ["side", "hello"], "obj": j["values"] - 1}, {"i": "5", "obj": 0}]})
+        docs.append({"j": streams, "pos": [[["a", 0, 1]]]})
+    return {"id": i, "kind": "jsonvals", "jsonvals": j, "segs": [docs[:2], docs[2:]], "deletes": [], "merge": True, "seeks": []}
+
+
 def describe(unit, k, text):
     e = unit[k - 1]
     seg = next((x for x in reversed(unit[:k]) if x.get("ev") == "seg"), {})
@@ -184,7 +203,7 @@ def describe(unit, k, text):
 
 def run_cases(ctx, cases, label):
     cp = ctx.path(f"{label}_cases.ndjson")
-    vlib.write_ndjson(cp, [{k: v for k, v in c.items() if k not in ("kind", "shape", "tf", "many")} for c in cases])
+    vlib.write_ndjson(cp, [{k: v for k, v in c.items() if k not in ("kind", "shape", "tf", "many", "jsonvals")} for c in cases])
     tp = ctx.path(f"{label}_trace.ndjson")
     vlib.run_bin("invidx_driver", ["run", "--in", cp, "--out", tp], timeout=900, mem_gb=12)
     ev = _fid.clean(vlib.read_ndjson(tp))
@@ -288,6 +307,12 @@ def run(ctx):
     for m in manys:
         cases.append(many_case(len(cases), m, rng))
     ctx.cov["many_values_cases"] = len(manys)
+    jvs = [c for c in gen if c["what"] == "jsonvals"]
+    if len(jvs) < 12:
+        raise vlib.ToolError("Gen_InvertedIndex produced no JSON multi-value cases")
+    for j in jvs:
+        cases.append(jsonvals_case(len(cases), j, rng))
+    ctx.cov["json_multi_value_cases"] = len(jvs)
     for i in range(n_rich):
         cases.append(rich_case(len(cases), rng, special=(i % 6 == 0)))
     units, n_ok = run_cases(ctx, cases, "index")
